@@ -49,8 +49,15 @@ class SourceProvider:
                     else:
                         name = ".".join([self.PKG] + parts + [fn[:-3]])
                     mods[name] = os.path.join(dp, fn)
+            spec_dir = os.path.join(os.path.dirname(os.path.abspath(__file__)), "spec")
+            for fn in sorted(os.listdir(spec_dir)) if os.path.isdir(spec_dir) else []:
+                if fn.endswith(".py") and fn != "__init__.py":
+                    mods["ppsa_spec." + fn[:-3]] = os.path.join(spec_dir, fn)
             self._mods = mods
         return self._mods
+
+    def package_modules(self):
+        return {m: p for m, p in self.modules().items() if m.startswith(self.PKG)}
 
     def is_package(self, mod):
         p = self.modules().get(mod)
@@ -63,7 +70,10 @@ class SourceProvider:
             raise AnalysisError("module %s not found in %s" % (mod, self.pkg_dir))
 
     def relpath(self, mod):
-        return os.path.relpath(self.path(mod), self.repo)
+        p = self.path(mod)
+        if mod.startswith("ppsa_spec."):
+            return "verif:" + os.path.relpath(p, os.path.dirname(os.path.dirname(os.path.abspath(__file__))))
+        return os.path.relpath(p, self.repo)
 
     def text(self, mod):
         if mod in self.overrides:
